@@ -1406,69 +1406,66 @@ const rulePOSTWRITEText = "state follows the write: in the Repair methods of the
 func rulePOSTWRITE(w *World, r *Report) {
 	r.rule("POSTWRITE", rulePOSTWRITEText)
 	nLoops, nStores := 0, 0
-	for _, name := range []string{"(*par1.Decoder).Repair", "(*par2.Decoder).Repair"} {
-		fn := w.Fn(name)
-		if fn == nil {
-			r.unk("POSTWRITE", name, "", "function not found")
-			continue
-		}
-		recv := fn.Params[0]
-		loops := naturalLoops(fn)
-		for _, c := range callInstrs(fn) {
-			if !isInvokeOf(c.Common(), "WriteFile", "par1", "par2") {
-				continue
-			}
-			l := innermostLoop(loops, c.Block())
-			if l == nil {
-				continue
-			}
-			nLoops++
-			// success edge of this write
-			var okFrom *ssa.BasicBlock
-			okIdx := -1
-			errv := c.Value()
-			for b := range l.body {
-				iff, ok := b.Instrs[len(b.Instrs)-1].(*ssa.If)
-				if !ok {
+	for _, ws := range w.repairWriteSites() {
+		fn := ws.Fn
+		name := shortName(fn)
+		{
+			recv := fn.Params[0]
+			loops := naturalLoops(fn)
+			c := ws.at()
+			{
+				l := innermostLoop(loops, c.Block())
+				if l == nil {
 					continue
 				}
-				for _, cm := range factCmps(Fact{iff.Cond, true, iff}) {
-					if cm.X == ssa.Value(errv) && isNilConst(cm.Y) {
-						if cm.Op == token.NEQ {
-							okFrom, okIdx = b, 1
-						} else if cm.Op == token.EQL {
-							okFrom, okIdx = b, 0
-						}
-					}
-				}
-			}
-			if okFrom == nil {
-				r.unk("POSTWRITE", name+":write", w.ipos(c), "the err==nil edge of WriteFile was not found")
-				continue
-			}
-			var blocks []*ssa.BasicBlock
-			for b := range l.body {
-				blocks = append(blocks, b)
-			}
-			sort.Slice(blocks, func(i, j int) bool { return blocks[i].Index < blocks[j].Index })
-			k := 0
-			for _, b := range blocks {
-				for _, in := range b.Instrs {
-					st, ok := in.(*ssa.Store)
+				nLoops++
+				// success edge of this write
+				var okFrom *ssa.BasicBlock
+				okIdx := -1
+				errv := ws.errVal()
+				for b := range l.body {
+					iff, ok := b.Instrs[len(b.Instrs)-1].(*ssa.If)
 					if !ok {
 						continue
 					}
-					p := resolvedAddrPath(st.Addr)
-					if p.Root != ssa.Value(recv) || p.Path == "" {
-						continue
+					for _, cm := range factCmps(Fact{iff.Cond, true, iff}) {
+						if cm.X == errv && isNilConst(cm.Y) {
+							if cm.Op == token.NEQ {
+								okFrom, okIdx = b, 1
+							} else if cm.Op == token.EQL {
+								okFrom, okIdx = b, 0
+							}
+						}
 					}
-					nStores++
-					key := fmt.Sprintf("%s:store(%s)#%d", name, p.Path, k)
-					k++
-					if edgeDominates(okFrom, okIdx, b) {
-						r.ok("POSTWRITE", key, w.ipos(st), "decoder state is updated only after WriteFile returned nil")
-					} else {
-						r.bad("POSTWRITE", key, w.ipos(st), fmt.Sprintf("the decoder's %s is updated inside the write loop on a path where the write has not succeeded (yet): after a failed write the file still counts as restored", p.Path))
+				}
+				if okFrom == nil {
+					r.unk("POSTWRITE", name+":write", w.ipos(c), "the err==nil edge of WriteFile was not found")
+					continue
+				}
+				var blocks []*ssa.BasicBlock
+				for b := range l.body {
+					blocks = append(blocks, b)
+				}
+				sort.Slice(blocks, func(i, j int) bool { return blocks[i].Index < blocks[j].Index })
+				k := 0
+				for _, b := range blocks {
+					for _, in := range b.Instrs {
+						st, ok := in.(*ssa.Store)
+						if !ok {
+							continue
+						}
+						p := resolvedAddrPath(st.Addr)
+						if p.Root != ssa.Value(recv) || p.Path == "" {
+							continue
+						}
+						nStores++
+						key := fmt.Sprintf("%s:store(%s)#%d", name, p.Path, k)
+						k++
+						if edgeDominates(okFrom, okIdx, b) {
+							r.ok("POSTWRITE", key, w.ipos(st), "decoder state is updated only after WriteFile returned nil")
+						} else {
+							r.bad("POSTWRITE", key, w.ipos(st), fmt.Sprintf("the decoder's %s is updated inside the write loop on a path where the write has not succeeded (yet): after a failed write the file still counts as restored", p.Path))
+						}
 					}
 				}
 			}
